@@ -52,6 +52,13 @@ EXHAUSTIVE = {'quick': False, 'thorough': False}
 FLOORS = {'accepted-any': 0.5}
 MAXTASKS = 1
 
+# The op table is a pure function of nothing and is rebuilt by every CppEmitter (~0.1 s, a third of the
+# compile cost here); build it once per process.  The table itself is still the tree's.
+import functools as _functools
+import fpy2.backend.cpp.emitter as _emitter_mod
+if not hasattr(_emitter_mod.make_op_table, 'cache_info'):
+    _emitter_mod.make_op_table = _functools.lru_cache(maxsize=1)(_emitter_mod.make_op_table)
+
 UM = fp.CppCompiler.UnboxMode
 CppCompileError = fp.backend.cpp.compiler.CppCompileError
 
@@ -269,6 +276,110 @@ def variant_sources(src):
     return {'FP32': sub(prec='8, 32'), 'FP64': sub(prec='11, 64'), 'RTZ': sub(rm='RTZ'), 'RNE': sub(rm='RNE')}
 
 
+class _IeeeRtnZero:
+    """Engine front-end that resolves the one choice the documents leave open the IEEE 754 way: the sign of an
+    exactly-zero sum / difference / fused multiply-add under round-toward-negative is '-' (754-2019 6.3), where
+    the tree returns '+'.  Used only to re-evaluate an input on which compiled code and interpreter disagree."""
+
+    def __getattr__(self, name):
+        return lambda *a, **k: None
+
+    def _rest(self, name, *args):
+        from fpy2.number.engine import ENGINES
+        for e in ENGINES:
+            if e is self:
+                continue
+            r = getattr(e, name)(*args)
+            if r is not None:
+                return r
+        return None
+
+    @staticmethod
+    def _zero_sign(v):
+        """None if v is not a zero, else its sign bit"""
+        if isinstance(v, Fraction):
+            return False if v == 0 else None
+        if isinstance(v, int):
+            return False if v == 0 else None
+        if v.isnan or v.isinf:
+            return None
+        return bool(v.s) if v.is_zero() else None
+
+    @staticmethod
+    def _rtn(ctx):
+        return isinstance(ctx, fp.IEEEContext) and ctx.rm == fp.RM.RTN
+
+    def _fix(self, r, ctx, sa, sb):
+        """r = exact a + b; sa/sb: zero-sign of the addends (None when nonzero)"""
+        if r is None or not self._rtn(ctx) or self._zero_sign(r) is None:
+            return r
+        if sa is not None and sb is not None and sa == sb:
+            return r          # (+0) + (+0), (-0) + (-0): the common sign
+        return fp.Float(s=True, c=0, exp=0)
+
+    def add(self, x, y, ctx):
+        if not self.active:
+            return None
+        return self._fix(self._rest('add', x, y, ctx), ctx, self._zero_sign(x), self._zero_sign(y))
+
+    def sub(self, x, y, ctx):
+        if not self.active:
+            return None
+        sy = self._zero_sign(y)
+        return self._fix(self._rest('sub', x, y, ctx), ctx, self._zero_sign(x), None if sy is None else not sy)
+
+    def fma(self, x, y, z, ctx):
+        if not self.active:
+            return None
+        sx, sy = self._zero_sign(x), self._zero_sign(y)
+        sp = None
+        if sx is not None or sy is not None:
+            def sgn(v):
+                if isinstance(v, (Fraction, int)):
+                    return v < 0
+                return bool(v.s)
+            sp = sgn(x) != sgn(y)
+        return self._fix(self._rest('fma', x, y, z, ctx), ctx, sp, self._zero_sign(z))
+
+
+_RTN_ENGINE = _IeeeRtnZero()
+_RTN_ENGINE.active = False
+
+
+class ieee_rtn_zero:
+    """Activates the front-end engine (registered once through the public `register_engine`; inactive it answers
+    None to everything, so dispatch is unchanged)."""
+
+    def __enter__(self):
+        from fpy2.number.engine import ENGINES
+        if not any(e is _RTN_ENGINE for e in ENGINES):
+            ENGINES.register(_RTN_ENGINE, priority=10**6)
+        _RTN_ENGINE.active = True
+
+    def __exit__(self, *exc):
+        _RTN_ENGINE.active = False
+
+
+def alt_expected(case, args):
+    """Expected tree under the IEEE resolution of the RTN exact-zero sign, or None."""
+    if 'RTN' not in case['src'] and 'RTN' not in (case['ctx'] or ''):
+        return None
+    try:
+        mod = load_module(case['src'])
+    except Exception:
+        return None
+    try:
+        with ieee_rtn_zero():
+            r = interp(getattr(mod, case['main']), args, ctx_obj(case['ctx']))
+        if r[0] != 'value':
+            return None
+        return expected_tree(r[1])
+    except TypeError:
+        return None
+    finally:
+        unload(mod)
+
+
 class Prepared:
     """A program loaded, interpreted and compiled under every option set; yields kernels for a TU."""
 
@@ -373,6 +484,7 @@ class Prepared:
         # --- non-triviality: does the result move under FP32 / FP64 / RTZ / RNE re-evaluation?
         moved = [False] * len(self.inputs)
         outs = [[] for _ in self.inputs]
+        self.variants = [dict() for _ in self.inputs]
         for vname, vsrc in variant_sources(case['src']).items():
             try:
                 vm = load_module(vsrc)
@@ -387,9 +499,11 @@ class Prepared:
                     r = interp(vfn, args, vctx)
                     if r[0] == 'value':
                         try:
-                            outs[j].append(repr(expected_tree(r[1])))
+                            vt = expected_tree(r[1])
                         except TypeError:
-                            pass
+                            continue
+                        outs[j].append(repr(vt))
+                        self.variants[j][vname] = vt
             finally:
                 unload(vm)
         for j in range(len(self.inputs)):
@@ -429,58 +543,100 @@ class Prepared:
         return list(args)
 
     # -- after the TU ran
-    def judge(self, ki, call_results, invalid):
+    def judge_all(self, outcomes):
+        """outcomes[ki] = ('invalid', (reason, raw)) | ('ran', call_results)"""
         res, case = self.res, self.case
-        k = self.kernels[ki]
-        opts = self.kernel_opts[ki]
         base = {'src': case['src'], 'main': case['main'], 'ctx': case['ctx'], 'arg_types': case['arg_types'],
-                'entry_rm': case['entry_rm'], 'options': opts[:1], 'features': sorted(case.get('features', ())),
+                'entry_rm': case['entry_rm'], 'features': sorted(case.get('features', ())),
                 'extra_public': case.get('extra_public', []), 'origin': case.get('origin')}
-        if invalid is not None:
-            reason, raw = invalid
-            c = dict(base, inputs=[enc_val_list(self.inputs[0])])
-            res.fail(f'emits-invalid-c++/{reason}', c, expected='C++ that compiles', got=raw[:300], note=f'options sharing this text: {opts}')
-            res.count('kernels_invalid')
-            return
-        res.count('kernels_run')
-        res.count('option_sets_run', len(opts))
-        for j, r in enumerate(call_results):
-            n_eval = len(opts)
-            res.case(n_eval)
-            res.count('disagreements_checked', n_eval)
-            c = dict(base, inputs=[enc_val_list(self.inputs[j])])
-            if self.moved[j]:
-                res.cls('ctx-sensitive', n_eval)
-            if self.nt[j]:
-                for o in opts:
-                    res.nontrivial((self.sh, o, self.input_idx[j]))
-            if (res.evaluations // n_eval) % 211 == 0:
-                res.sample(dict(c, expected=show_tree(self.expected[j])), nt=self.nt[j])
-            if r[0] == 'timeout':
-                res.skip('cxx-timeout-inconclusive', n_eval)
-                continue
-            if r[0] == 'abort':
-                msg = r[2]
-                m = re.search(r'Assertion `(.*)\' failed', msg)
-                why = 'assert:' + re.sub(r'_tmp\d+|\b[a-z]\w*_\d+\b', '_', m.group(1))[:60] if m else f'signal:{r[1]}'
-                res.fail(f'aborts/{why}', c, expected=show_tree(self.expected[j]), got=msg[-200:], note=f'options: {opts}')
-                continue
-            try:
-                got = cxx.parse_tokens(r[1])
-            except cxx.HarnessError as e:
-                raise
-            mm = compare(self.expected[j], got)
-            if mm is not None:
-                res.fail(self.bucket(mm, opts), c, expected=show_tree(self.expected[j]), got=show_tree(got), note=f'options: {opts}')
-            elif not r[2]:
-                res.fail('rounding-mode-not-restored/at-return', c, expected='fegetround() == entry mode', got='changed', note=f'options: {opts}')
+        ran_opts = []
+        alt_cache = {}
+        for ki, (kind, payload) in enumerate(outcomes):
+            opts = self.kernel_opts[ki]
+            if kind == 'invalid':
+                reason, raw = payload
+                c = dict(base, options=opts[:1], inputs=[enc_val_list(self.inputs[0])])
+                res.fail(f'emits-invalid-c++/{reason}', c, expected='C++ that compiles', got=raw[:300],
+                         note=f'options sharing this text: {opts}')
+                res.count('kernels_invalid')
+            else:
+                res.count('kernels_run')
+                res.count('option_sets_run', len(opts))
+                ran_opts += opts
+        for j in range(len(self.inputs)):
+            failing = {}          # outcome key -> (option names, got, note)
+            for ki, (kind, payload) in enumerate(outcomes):
+                if kind != 'ran':
+                    continue
+                opts = self.kernel_opts[ki]
+                n_eval = len(opts)
+                res.case(n_eval)
+                res.count('disagreements_checked', n_eval)
+                if self.moved[j]:
+                    res.cls('ctx-sensitive', n_eval)
+                if self.nt[j]:
+                    for o in opts:
+                        res.nontrivial((self.sh, o, self.input_idx[j]))
+                r = payload[j]
+                if r[0] == 'timeout':
+                    res.skip('cxx-timeout-inconclusive', n_eval)
+                    continue
+                if r[0] == 'abort':
+                    msg = r[2]
+                    m = re.search(r"Assertion `(.*)' failed", msg)
+                    why = ('assert:' + re.sub(r'_tmp\d+|\b[a-z]+\d+(_\d+)?\b', '_', m.group(1))[:60]) if m else f'signal:{r[1]}'
+                    key = f'aborts/{why}'
+                    got = msg[-200:]
+                else:
+                    got_tree = cxx.parse_tokens(r[1])
+                    mm = compare(self.expected[j], got_tree)
+                    if mm is None and r[2]:
+                        continue
+                    if mm is not None:
+                        if j not in alt_cache:
+                            alt_cache[j] = alt_expected(case, self.inputs[j])
+                        if alt_cache[j] is not None and compare(alt_cache[j], got_tree) is None:
+                            # the compiled code took the IEEE side of the open choice; everything else agrees
+                            res.skip('open-choice:rtn-exact-zero-sign', n_eval)
+                            res.cls('rtn-exact-zero-open-choice', n_eval)
+                            if r[2]:
+                                continue
+                            mm = None
+                    if mm is None:
+                        key, got = 'rounding-mode-not-restored/at-return', 'fegetround() changed across the call'
+                    else:
+                        asif = [v for v, vt in sorted(self.variants[j].items())
+                                if repr(vt) != repr(self.expected[j]) and compare(vt, got_tree) is None]
+                        key = f'wrong-{mm}' + (f'/as-if-{"+".join(asif)}' if asif else '')
+                        got = show_tree(got_tree)
+                f = failing.setdefault(key, [[], got])
+                f[0] += opts
+            if (res.evaluations // 13) % 97 == 0:
+                res.sample(dict(base, inputs=[enc_val_list(self.inputs[j])], expected=show_tree(self.expected[j])), nt=self.nt[j])
+            for key, (opts, got) in failing.items():
+                scope = describe_scope(opts, ran_opts)
+                c = dict(base, options=opts[:1], inputs=[enc_val_list(self.inputs[j])])
+                res.fail(f'{key}/{scope}', c, expected=show_tree(self.expected[j]), got=got, note=f'failing options: {sorted(opts)}')
 
-    def bucket(self, mm, opts):
-        feats = set(self.case.get('features', ()))
-        all_opts = {n for n, _ in OPTION_SETS if n in {o for ol in self.kernel_opts for o in ol}}
-        scope = 'all-options' if set(opts) >= all_opts else '+'.join(sorted({o.split('-')[1] for o in opts})) + \
-            ('' if len({o.split('-')[0] for o in opts}) > 1 else '/' + opts[0].split('-')[0])
-        return f'wrong-{mm}/{scope}'
+
+def describe_scope(failing, ran):
+    """Which compiler options a failure depends on, from the option sets that ran and those that failed."""
+    failing, ran = set(failing), set(ran)
+    if failing >= ran:
+        return 'all-options'
+
+    def parts(o):
+        p = o.split('-')
+        return {'optimize': p[0], 'unbox': p[1], 'arrays': p[2], 'safeint': 'safeint' if len(p) > 3 else 'unsafeint'}
+    for dim in ('unbox', 'optimize', 'arrays', 'safeint'):
+        vals = sorted({parts(o)[dim] for o in failing})
+        if {o for o in ran if parts(o)[dim] in vals} == failing:
+            return f'{dim}={"+".join(vals)}'
+    for d1, d2 in (('unbox', 'arrays'), ('unbox', 'optimize'), ('optimize', 'arrays')):
+        combos = sorted({(parts(o)[d1], parts(o)[d2]) for o in failing})
+        if {o for o in ran if (parts(o)[d1], parts(o)[d2]) in combos} == failing:
+            return f'{d1}x{d2}=' + '+'.join(f'{a}.{b}' for a, b in combos)
+    return 'some-options'
 
 
 def enc_val_list(args):
@@ -489,6 +645,10 @@ def enc_val_list(args):
 
 def run_batch(res: Result, cases, gxx, headers):
     """One translation unit for a list of cases."""
+    import os
+    import time
+    timing = bool(os.environ.get('VERIF_C11_TIMING'))
+    t0 = time.time()
     preps = []
     for pidx, case in enumerate(cases):
         p = Prepared(res, case, pidx)
@@ -503,18 +663,22 @@ def run_batch(res: Result, cases, gxx, headers):
             owner.append((p, ki))
     if not kernels:
         return
+    t1 = time.time()
     wd = cxx.make_workdir()
     try:
         br = cxx.build_and_run(gxx, headers, kernels, wd)
     finally:
         cxx.remove_workdir(wd)
+    if timing:
+        res.count('t_prepare_s', round(t1 - t0))
+        res.count('t_build_run_s', round(time.time() - t1))
     res.count('translation_units')
     res.count('kernels_built', br.built)
+    per = {}
     for gi, (p, ki) in enumerate(owner):
-        if gi in br.invalid:
-            p.judge(ki, None, br.invalid[gi])
-        else:
-            p.judge(ki, br.results[gi], None)
+        per.setdefault(id(p), (p, []))[1].append(('invalid', br.invalid[gi]) if gi in br.invalid else ('ran', br.results[gi]))
+    for p, outcomes in per.values():
+        p.judge_all(outcomes)
 
 
 # ---------------------------------------------------------------------------
